@@ -26,6 +26,7 @@ import holopy.scattering.scatterer.composite as comp_mod
 import holopy.core.math as hm
 from holopy.core.metadata import detector_points
 from holopy.scattering.scatterer import Sphere, Spheres, Spheroid, Cylinder
+from holopy.scattering.errors import InvalidScatterer
 from holopy.scattering.theory.scatteringtheory import ScatteringTheory
 from holopy.scattering.theory.mielens import MieLens
 from holopy.scattering import calc_field
@@ -298,9 +299,17 @@ def tmatrix_args(S):
             else:
                 sc = Cylinder(n=n, d=mult * a, h=mult * b, center=(0, 0, 0), rotation=(0, 0.3, 0.2))
             sc.n = n + 0j if not S.sym else core.SymC(n, 0)
-            args = theory._parse_args(sc, pos, k, nm)
+            try:
+                args = theory._parse_args(sc, pos, k, nm)
+            except InvalidScatterer:
+                got[label] = None       # too large for the T-matrix code: must be so in every configuration
+                continue
             got[label] = dict(ratio=args[0] / args[2], mrr=args[3], mri=args[4], eps=args[5], np_=args[6],
                               alpha=args[8], beta=args[9], thet=args[11], phi=args[13])
+        for label in ('rescaled', 'index_normalised'):
+            S.claim(f'{shape}.{label}.same_size_verdict', (got[label] is None) == (got['reference'] is None))
+        if any(v is None for v in got.values()):
+            continue
         S.observe(shape, got['reference']['eps'])
         for label in ('rescaled', 'index_normalised'):
             for key in ('ratio', 'mrr', 'mri', 'eps', 'alpha', 'beta', 'thet', 'phi'):
